@@ -6,7 +6,7 @@ statement on the raw bytes."""
 import itertools
 import os
 
-from vf.harness import use_world, outcome, freeze, sample
+from vf.harness import use_world, outcome, freeze, sample, guarded
 from vf.simk.world import World
 
 ID = "C12"
@@ -201,7 +201,7 @@ def worker(chunk):
     w, p = mk_world(seed)
     use_world(w)
     w.logging = False
-    return [run_case(c, (w, p)) for c in cases]
+    return [guarded(run_case, c, (w, p)) for c in cases]
 
 
 def build_cases(thorough):
@@ -295,5 +295,5 @@ def nmax_(ctx):
 def replay(ctx, case):
     w, p = mk_world(ctx.seed)
     use_world(w)
-    bad = run_case(dec(case), (w, p))
+    bad = guarded(run_case, dec(case), (w, p))
     return {"violated": bool(bad), "viols": bad}
